@@ -2174,7 +2174,7 @@ ure_exec(ure_dfa_t dfa, int flags, ucs2_t *text, unsigned long textlen,
 #endif
 {
   int i, j, matched, found, skip;
-  unsigned long ms, me;
+  unsigned long ms, me, la;
   ucs4_t c;
   ucs2_t *sp, *ep, *lp;
   _ure_dstate_t *stp;
@@ -2195,7 +2195,7 @@ ure_exec(ure_dfa_t dfa, int flags, ucs2_t *text, unsigned long textlen,
   sp = text;
   ep = sp + textlen;
 
-  ms = me = ~0;
+  ms = me = la = ~0;
 
   stp = dfa->states;
 
@@ -2308,11 +2308,27 @@ ure_exec(ure_dfa_t dfa, int flags, ucs2_t *text, unsigned long textlen,
 	  if (sp < ep && c == '\r' && *sp == '\n')
 	    sp++;
 	}
+
+	/*
+	 * Remember the end of the longest match seen so far in
+	 * this attempt: a longer one may still fail.
+	 */
+	if (stp->accepting)
+	  la = me;
       }
     }
 
     if (matched == 0) {
       if (stp->accepting == 0) {
+	if (la != (unsigned long) ~0) {
+	  /*
+	   * The attempt went on behind an accepting state and
+	   * failed: the match ends where it was last accepted.
+	   */
+	  me = la;
+	  found = 1;
+	  break;
+	}
 	/*
 	 * If the last state was not accepting, then reset
 	 * and start over, one character after the start
@@ -2321,7 +2337,7 @@ ure_exec(ure_dfa_t dfa, int flags, ucs2_t *text, unsigned long textlen,
 	if (ms != (unsigned long) ~0)
 	  sp = text + ms + 1;
 	stp = dfa->states;
-	ms = me = ~0;
+	ms = me = la = ~0;
       } else
 	/*
 	 * The last state was accepting, so terminate the matching
@@ -2355,6 +2371,12 @@ ure_exec(ure_dfa_t dfa, int flags, ucs2_t *text, unsigned long textlen,
 	me = sp - text;
       }
     }
+  }
+
+  if (found == 0 && la != (unsigned long) ~0) {
+    /* Text ends inside a longer attempt behind an accepted match. */
+    me = la;
+    found = 1;
   }
 
   if (found == 0)
